@@ -259,6 +259,78 @@ fn real_forwarder_cases(rep: &Arc<Reporter>, args: &Args) {
     });
 }
 
+/// The same dispatch through the real SOCKS5 forwarder and a relaying proxy: 200 when the proxy connects / associates,
+/// 407 when the proxy rejects the credentials it is handed (TCP CONNECT and the datagram multiplexers alike),
+/// 502 with the documented code when the proxy reports a failure.
+fn socks5_forwarder_cases(rep: &Arc<Reporter>, args: &Args) {
+    use crate::s5srv::{S5AuthMode, S5Opts, S5Server};
+    let dir = env::work_dir(&args.root, "c10s5");
+    let rt = env::rt_current();
+    rt.block_on(async {
+        let listener = tokio::net::TcpListener::bind("127.0.0.1:0").await.unwrap();
+        let open = listener.local_addr().unwrap();
+        tokio::spawn(async move { loop { let _ = listener.accept().await; } });
+        let closed_port = { let l = std::net::TcpListener::bind("127.0.0.1:0").unwrap(); l.local_addr().unwrap().port() };
+        let auth = format!("Basic {}", basic("u10", "p10"));
+        let mut id = 9000;
+        // (proxy behaviour, name)
+        let modes: Vec<(S5Opts, &str)> = vec![
+            (S5Opts::default(), "proxy accepts"),
+            (S5Opts { auth: S5AuthMode::RejectCredentials, ..Default::default() }, "proxy rejects the credentials"),
+            (S5Opts { connect_code: 3, ..Default::default() }, "proxy reports network unreachable"),
+            (S5Opts { connect_code: 6, ..Default::default() }, "proxy reports TTL expired"),
+        ];
+        for (opts, mode) in modes {
+            let rejecting = opts.auth == S5AuthMode::RejectCredentials;
+            let code = opts.connect_code;
+            let s5 = S5Server::start(opts).await;
+            let a = s5.addr;
+            let ctx = Arc::new(env::make_ctx(&dir, env::CtxOpts {
+                allow_private: true,
+                clients: vec![("u10".into(), "p10".into())],
+                registry_authenticator: true,
+                tweak: Some(Box::new(move |b| b.forwarder_settings(trusttunnel::settings::ForwardProtocolSettings::Socks5(
+                    trusttunnel::settings::Socks5ForwarderSettings::builder().server_address(a).unwrap().build().unwrap())))),
+                ..Default::default()
+            }));
+            // (authority, expectation when the proxy accepts, is a datagram multiplexer)
+            let targets: Vec<(String, (u16, Option<&str>), bool)> = vec![
+                (open.to_string(), (200, None), false),
+                (format!("127.0.0.1:{}", closed_port), (502, Some("300")), false),
+                ("_udp2".to_string(), (200, None), true),
+                ("_check".to_string(), (200, None), false),
+            ];
+            for (authority, accept_want, mux) in targets {
+                for proto in [Proto::H1, Proto::H2] {
+                    id += 1;
+                    let mut req = Req::connect(&authority).header("proxy-authorization", auth.as_bytes());
+                    req.end_stream = false;
+                    let how = How::Tunnel(Fwd::Real, Policy::Default);
+                    let resp = match proto {
+                        Proto::H1 => h1_roundtrip(&ctx, how, "main.test", &req, Duration::from_secs(4), id).await,
+                        _ => h2_session(&ctx, how, "main.test", std::slice::from_ref(&req), Duration::from_secs(4), id).await.pop().unwrap_or_default(),
+                    };
+                    rep.evals(1);
+                    rep.distinct(common::fnv(format!("s5|{}|{}|{:?}", mode, authority.starts_with('_').then(|| authority.clone()).unwrap_or_else(|| if authority.ends_with(&closed_port.to_string()) { "closed".into() } else { "open".into() }), proto).as_bytes()));
+                    let want: (u16, Option<&str>) = if authority == "_check" { (200, None) }
+                        else if rejecting { (407, None) }
+                        else if code == 3 && !mux { (502, Some("301")) }
+                        else if code == 6 && !mux { (502, Some("302")) }
+                        else { accept_want };
+                    let w = json!({"kind":"tunnel-request-socks5","proxy":mode,"protocol":format!("{:?}", proto),"authority":authority,"response":resp.summary(),"expected":format!("{:?}", want)});
+                    let ok_warn = match (want.1, resp.header("x-warning")) { (None, _) => true, (Some(c), Some(v)) => v.starts_with(c), (Some(_), None) => false };
+                    if resp.status != Some(want.0) || !ok_warn || resp.heads != 1 {
+                        let what = if authority.starts_with('_') { authority.clone() } else { "host:port".to_string() };
+                        rep.violation(&format!("SOCKS5 forwarder, {}: CONNECT {} answered {:?}/{:?} instead of {}/{:?}", mode, what, resp.status, resp.header("x-warning").map(|v| v.split(' ').next().unwrap_or("").to_string()), want.0, want.1), w);
+                    } else if want.0 == 407 && resp.header("proxy-authenticate").is_none() {
+                        rep.violation("SOCKS5 forwarder: 407 without Proxy-Authenticate", w);
+                    } else { rep.tally(&format!("socks5 forwarder, {}: documented response", mode), 1); }
+                }
+            }
+        }
+    });
+}
+
 /// HTTP/2 sessions carrying several requests at once, each with its own destination and connect outcome:
 /// every stream must get exactly one final response with the code of *its own* outcome
 fn h2_histories(rep: &Arc<Reporter>, args: &Args, ctx: &Arc<Ctx>) {
@@ -343,6 +415,7 @@ pub fn scenarios(rep: &Arc<Reporter>, args: &Args) {
     scripted_matrix(rep, args, &ctx);
     h2_histories(rep, args, &ctx);
     real_forwarder_cases(rep, args);
+    socks5_forwarder_cases(rep, args);
 }
 
 pub fn run(args: &Args) -> i32 {
